@@ -11,7 +11,7 @@ import copy
 
 import numpy as np
 
-from .. import histories
+from .. import gen, histories
 from ..ctx import biteq, close, maxrel
 from ..models import stats as MS
 from ..models.peaks import Oracle
@@ -204,7 +204,8 @@ def judge_state(ctx, h, steps, rng):
 
 
 def fam_history(ctx, rng):
-    h, kind = histories.build_traditional(rng)
+    nc, big = gen.maybe_large(rng, ctx, None, [1100, 1600, 2500], p_quick=0.008, p_thorough=0.01)   # hours of windows
+    h, kind = histories.build_traditional(rng, n_curves=nc, n_freq=16) if big else histories.build_traditional(rng)
     steps_seen = []
     nontriv = judge_state(ctx, h, [], rng)
     for steps in histories.random_history(rng, h, n_steps=int(rng.integers(1, 7))):
